@@ -62,6 +62,46 @@ theorem get_s2 {src al k ls p} {sA sB : St} (h : DR src al k ls p sA sB) :
 
 /-! ### one retry of openBlocks -/
 
+/-- what run A's `openBlocks` loop answers when the last opened block is no paragraph: `newBlocksOpened` once something
+    was opened, and also when nothing was opened yet but the rest of the line is not blank -/
+def OLU (src : Bytes) (ls p : Nat) (cont : Bool) (result : OpenResult) (a : OpenResult) : Prop :=
+  cont = false → (result = .newBlocksOpened ∨ (result = .noBlocksOpened ∧ NBV src ls p)) → a = .newBlocksOpened
+
+theorem toContinuable_false (result : OpenResult) (lb : Option Block) (s : St) :
+    toContinuable false result lb s = .ok (result, s) := by
+  unfold toContinuable
+  simp only [Bool.and_false, Bool.false_eq_true, if_false]
+  rfl
+
+/-- every candidate list ends with the free parsers -/
+theorem free_mem_triggered (c : UInt8) :
+    BP.paragraph ∈ (triggered c).getD freeParsers ∧ BP.code ∈ (triggered c).getD freeParsers := by
+  unfold triggered
+  repeat' split
+  all_goals simp [freeParsers]
+
+/-- a rest of line that starts with `\n` is blank -/
+theorem nbv_first10 {src k ls p} (h : InL src k ls p) {c : UInt8} (hc : idx ((viewA src ls p).getD []) 0 = .ok c)
+    (h10 : c = 10) : ¬ NBV src ls p := by
+  obtain ⟨_, hlt, hb⟩ := idx_view_la hc
+  simp only [Int.toNat_zero, Nat.add_zero] at hlt hb
+  subst h10
+  have e1 := lineEnd_nl src hb
+  have e2 := h.lineEnd_eq
+  intro hn
+  unfold NBV viewA at hn
+  rw [if_pos hlt, ← e2, e1] at hn
+  have : sub src p (p + 1) = [10] := by
+    apply List.ext_getElem?
+    intro i
+    rw [sub_getElem?]
+    cases i with
+    | zero => simp [hb]
+    | succ j => simp
+  rw [this] at hn
+  simp [isBlank, isSpace] at hn
+
+
 /-- parser.go:960-1014 with the monitor, for the candidate list `bps` -/
 def obJp (b c : Bool) (f q : Nat) (w : Int) (r : OpenResult) (l : Option Block) (bps : List BP) : M OpenResult := do
   let st ← get
@@ -81,24 +121,28 @@ def obJp (b c : Bool) (f q : Nat) (w : Int) (r : OpenResult) (l : Option Block) 
 def LoopIH (src : Bytes) (al : BP → Bool) (bA bB cont : Bool) (fA fB : Nat) : Prop :=
   ∀ (q : Nat) (result resultB : OpenResult) (lbA lbB : Option Block) {k ls p : Nat} {sA sB : St},
     DRL src al k ls p sA sB → LRw al lbA lbB → RRes cont result resultB →
-    S2 (fun a b sA' sB' => RRes cont a b ∧ (resultB = result → b = a) ∧ ∃ p', DR src al k ls p' sA' sB')
+    S2 (fun a b sA' sB' => RRes cont a b ∧ (resultB = result → b = a) ∧ (∃ p', DR src al k ls p' sA' sB') ∧
+        OLU src ls p cont result a)
       (openBlocksLoop bA cont fA q result lbA sA) (openBlocksLoop bB cont fB (q + 1) resultB lbB sB)
 
-theorem obJp_sim {src al} (ps : PS src al) (fr : Frames al) (ns : NS src) (bA bB cont : Bool) {fA fB : Nat}
+theorem obJp_sim {src al} (ps : PS src al) (fr : Frames al) (ot : OT src) (ns : NS src) (bA bB cont : Bool) {fA fB : Nat}
     (ih : LoopIH src al bA bB cont fA fB) (q : Nat) (w : Int) (result resultB : OpenResult) {lbA lbB : Option Block}
     (hl : LRw al lbA lbB) (bps : List BP) (hbps : ∀ bp ∈ bps, al bp = true) {k ls p} {sA sB : St}
-    (h : DR src al k ls p sA sB) (hres : RRes cont result resultB) :
-    S2 (fun a b sA' sB' => RRes cont a b ∧ (resultB = result → b = a) ∧ ∃ p', DR src al k ls p' sA' sB')
+    (h : DR src al k ls p sA sB) (hres : RRes cont result resultB)
+    (hm1 : w ≤ 3 → BP.paragraph ∈ bps)
+    (hm2 : 3 < w → BP.code ∈ bps ∧ ∃ lo : Int, w = (indentWidthI ((viewA src ls p).getD []) lo).1) :
+    S2 (fun a b sA' sB' => RRes cont a b ∧ (resultB = result → b = a) ∧ (∃ p', DR src al k ls p' sA' sB') ∧
+        OLU src ls p cont result a)
       (obJp bA cont fA q w result lbA bps sA) (obJp bB cont fB (q + 1) w resultB lbB bps sB) := by
   unfold obJp
   refine S2.bind (get_s2 h) (fun stA stB sA1 sB1 hq => ?_)
   obtain ⟨e1, e2, e3, e4⟩ := hq
   rw [e1, e2, e3, e4]
-  refine S2.bind (tryParsers_sim ps fr bA bB cont w q bps hbps result resultB lbA lbB h hl hres) (fun a b sA2 sB2 hq => ?_)
-  obtain ⟨⟨hout, hr, hl2, hnew⟩, heq, p', h2⟩ := hq
+  refine S2.bind (tryParsers_sim ps fr ot bA bB cont w q bps hbps result resultB lbA lbB h hl hres) (fun a b sA2 sB2 hq => ?_)
+  obtain ⟨⟨hout, hr, hl2, hnew⟩, heq, ⟨p', h2⟩, hu⟩ := hq
   obtain ⟨oA, rA, lA⟩ := a
   obtain ⟨oB, rB, lB⟩ := b
-  simp only at hout hr hl2 hnew heq ⊢
+  simp only at hout hr hl2 hnew heq hu ⊢
   cases oA with
   | retry qa =>
     cases oB with
@@ -117,20 +161,27 @@ theorem obJp_sim {src al} (ps : PS src al) (fr : Frames al) (ns : NS src) (bA bB
       · rw [if_neg hc, if_neg hc]
         rw [hrA, hrB]
         exact S2.mono (ih qa .newBlocksOpened .newBlocksOpened lA lB h2.loose hl2 (.inl rfl))
-          (fun _ _ _ _ hh => ⟨hh.1, fun _ => hh.2.1 rfl, hh.2.2⟩)
+          (fun _ _ _ _ hh => ⟨hh.1, fun _ => hh.2.1 rfl, hh.2.2.1, fun hc _ => hh.2.2.2 hc (.inl rfl)⟩)
   | done =>
     cases oB with
     | retry _ => exact hout.elim
     | done =>
       simp only
-      exact S2.mono (toContinuable_sim ps fr ns cont rA rB hr hl2 h2)
-        (fun _ _ _ _ hh => ⟨hh.1, fun e => hh.2.1 (heq e), hh.2.2⟩)
+      refine S2.mono (S2.andL (toContinuable_sim ps fr ns cont rA rB hr hl2 h2) (F := fun a _ => cont = false → a = rA)
+        (fun a sA' e hc => by subst hc; rw [toContinuable_false] at e; cases e; rfl))
+        (fun _ _ _ _ hh => ⟨hh.1.1, fun e => hh.1.2.1 (heq e), hh.1.2.2, fun hc hpre => ?_⟩)
+      rw [hh.2 hc]
+      rcases hpre with e | ⟨e, hnb⟩
+      · rcases hu.1 with e' | e'
+        · rw [e', e]
+        · exact e'
+      · exact hu.2 hc e hnb hm1 hm2
 
 theorem liftE_same {α} {src al k ls p} {sA sB : St} (h : DR src al k ls p sA sB) (e : Except Panic α) :
     S2 (fun a b sA' sB' => b = a ∧ e = .ok a ∧ sA' = sA ∧ sB' = sB) (liftE e sA) (liftE e sB) :=
   S2.liftE (fun a ha => ⟨a, ha, rfl, ha, rfl, rfl⟩)
 
-theorem openBlocksLoop_sim {src al} (ps : PS src al) (fr : Frames al) (ns : NS src) (tr : TrigOK src al)
+theorem openBlocksLoop_sim {src al} (ps : PS src al) (fr : Frames al) (ot : OT src) (ns : NS src) (tr : TrigOK src al)
     (bA bB cont : Bool) : ∀ (fA fB : Nat), fA ≤ fB → LoopIH src al bA bB cont fA fB := by
   intro fA
   induction fA with
@@ -142,6 +193,19 @@ theorem openBlocksLoop_sim {src al} (ps : PS src al) (fr : Frames al) (ns : NS s
     intro fB hle q result resultB lbA lbB k ls p sA sB h hl hres
     obtain ⟨fB', rfl⟩ : ∃ f, fB = f + 1 := ⟨fB - 1, by omega⟩
     have ih' := ih fB' (by omega)
+    -- the exit through `toContinuable` before any parser was tried
+    have tc : ∀ {sA3 sB3 : St}, DR src al k ls p sA3 sB3 → ¬ NBV src ls p →
+        S2 (fun a b sA' sB' => RRes cont a b ∧ (resultB = result → b = a) ∧ (∃ p', DR src al k ls p' sA' sB') ∧
+          OLU src ls p cont result a) (toContinuable cont result lbA sA3) (toContinuable cont resultB lbB sB3) := by
+      intro sA3 sB3 h3 hnb
+      refine S2.mono (S2.andL (toContinuable_sim ps fr ns cont result resultB hres hl h3)
+        (F := fun a _ => cont = false → a = result)
+        (fun a sA' e hc => by subst hc; rw [toContinuable_false] at e; cases e; rfl))
+        (fun _ _ _ _ hh => ⟨hh.1.1, hh.1.2.1, hh.1.2.2, fun hc hpre => ?_⟩)
+      rw [hh.2 hc]
+      rcases hpre with e | ⟨_, hn⟩
+      · exact e
+      · exact absurd hn hnb
     unfold openBlocksLoop
     refine S2.bind (peekLine_l h) (fun a b sA1 sB1 hq => ?_)
     obtain ⟨ea, eb, h1⟩ := hq
@@ -151,26 +215,30 @@ theorem openBlocksLoop_sim {src al} (ps : PS src al) (fr : Frames al) (ns : NS s
     obtain ⟨_, h2⟩ := hq
     have htf := viewA_tf_la h.r.tf ls p
     rw [indentWidthI_tf _ htf loB loA]
-    generalize indentWidthI ((viewA src ls p).getD []) loA = wp
+    generalize hwp : indentWidthI ((viewA src ls p).getD []) loA = wp
     obtain ⟨w, pos⟩ := wp
+    have hw : w = (indentWidthI ((viewA src ls p).getD []) loA).1 := by rw [hwp]
     simp only
-    refine S2.bind (modPc_l h2 _ _ (fun a b hab => ?_) (fun a ha => ?_)) (fun _ _ sA3 sB3 h3 => ?_)
+    refine S2.bind (modPc_l h2 _ _ (fun a b hab => ?_) (fun a n ha => ?_)) (fun _ _ sA3 sB3 h3 => ?_)
     · split
       · exact ⟨rfl, rfl, hab.opened, hab.tmpPara, hab.fence, hab.skipList, hab.emptyItemBlank⟩
       · exact ⟨rfl, rfl, hab.opened, hab.tmpPara, hab.fence, hab.skipList, hab.emptyItemBlank⟩
     · split
-      · exact ⟨ha.opened, ha.tmp, ha.fence⟩
-      · exact ⟨ha.opened, ha.tmp, ha.fence⟩
+      · exact ⟨ha.opened, ha.tmp, ha.fence, ha.u⟩
+      · exact ⟨ha.opened, ha.tmp, ha.fence, ha.u⟩
     by_cases hnone : (viewA src ls p).isNone = true
     · rw [if_pos hnone, if_pos hnone]
-      exact toContinuable_sim ps fr ns cont result resultB hres hl h3
+      refine tc h3 (fun hn => ?_)
+      unfold NBV at hn
+      rw [Option.isNone_iff_eq_none.mp hnone] at hn
+      simp [isBlank] at hn
     rw [if_neg hnone, if_neg hnone]
     refine S2.bind (liftE_same h3 _) (fun c c' sA4 sB4 hq => ?_)
-    obtain ⟨ec, _, e1, e2⟩ := hq
+    obtain ⟨ec, hcidx, e1, e2⟩ := hq
     rw [ec, e1, e2]
     by_cases hc10 : (c == 10) = true
     · rw [if_pos hc10, if_pos hc10]
-      exact toContinuable_sim ps fr ns cont result resultB hres hl h3
+      exact tc h3 (nbv_first10 h.r.inl hcidx (by simpa using hc10))
     rw [if_neg hc10, if_neg hc10]
     by_cases hpl : pos < (((viewA src ls p).getD []).length : Int)
     · rw [if_pos hpl, if_pos hpl]
@@ -180,9 +248,11 @@ theorem openBlocksLoop_sim {src al} (ps : PS src al) (fr : Frames al) (ns : NS s
       have hmem : d ∈ src := by
         obtain ⟨_, _, hb⟩ := idx_view_la hd
         exact List.mem_of_getElem? hb
-      exact obJp_sim ps fr ns bA bB cont ih' q w result resultB hl _ (tr.trig d hmem) h3 hres
+      exact obJp_sim ps fr ot ns bA bB cont ih' q w result resultB hl _ (tr.trig d hmem) h3 hres
+        (fun _ => (free_mem_triggered d).1) (fun _ => ⟨(free_mem_triggered d).2, loA, hw⟩)
     · rw [if_neg hpl, if_neg hpl]
-      exact obJp_sim ps fr ns bA bB cont ih' q w result resultB hl _ tr.free h3 hres
+      exact obJp_sim ps fr ot ns bA bB cont ih' q w result resultB hl _ tr.free h3 hres
+        (fun _ => by simp [freeParsers]) (fun _ => ⟨by simp [freeParsers], loA, hw⟩)
 
 theorem qp_length_ge_len (src : Bytes) : src.length ≤ (quotePrefix src).length := by
   have := qpg_length src true
@@ -190,9 +260,11 @@ theorem qp_length_ge_len (src : Bytes) : src.length ≤ (quotePrefix src).length
   split at this <;> simp only [if_true] at this <;> omega
 
 /-- parser.openBlocks, from states that may still disagree on BlockOffset / BlockIndent -/
-theorem openBlocks_sim {src al} (ps : PS src al) (fr : Frames al) (ns : NS src) (tr : TrigOK src al)
+theorem openBlocks_sim {src al} (ps : PS src al) (fr : Frames al) (ot : OT src) (ns : NS src) (tr : TrigOK src al)
     (bA bB : Bool) (q : Nat) {k ls p} {sA sB : St} (h : DRL src al k ls p sA sB) :
-    S2 (fun a b sA' sB' => b = a ∧ ∃ p', DR src al k ls p' sA' sB') (openBlocks q bA sA) (openBlocks (q + 1) bB sB) := by
+    S2 (fun a b sA' sB' => b = a ∧ (∃ p', DR src al k ls p' sA' sB') ∧
+        (sA.pc.opened = [] → NBV src ls p → a = .newBlocksOpened))
+      (openBlocks q bA sA) (openBlocks (q + 1) bB sB) := by
   unfold openBlocks
   have e1 : lastOpenedBlock sA = .ok (sA.pc.opened.getLast?, sA) := rfl
   have e2 : lastOpenedBlock sB = .ok (sB.pc.opened.getLast?, sB) := rfl
@@ -220,7 +292,8 @@ theorem openBlocks_sim {src al} (ps : PS src al) (fr : Frames al) (ns : NS src) 
     show S2 _ ((source >>= fun x => openBlocksLoop bA false (retryFuel x) q .noBlocksOpened none) sA)
       ((source >>= fun x => openBlocksLoop bB false (retryFuel x) (q + 1) .noBlocksOpened (some bqBlock)) sB)
     rw [bind_run esA, bind_run esB]
-    exact S2.mono (openBlocksLoop_sim ps fr ns tr bA bB false _ _ fuel q _ _ _ _ h (.inr hl) (.inl rfl)) (fun _ _ _ _ hh => ⟨hh.2.1 rfl, hh.2.2⟩)
+    exact S2.mono (openBlocksLoop_sim ps fr ot ns tr bA bB false _ _ fuel q _ _ _ _ h (.inr hl) (.inl rfl))
+      (fun _ _ _ _ hh => ⟨hh.2.1 rfl, hh.2.2.1, fun _ hnb => hh.2.2.2 rfl (.inr ⟨rfl, hnb⟩)⟩)
   · rw [ea, eb] at hl ⊢
     obtain ⟨_, hx0⟩ := hl.ok x rfl
     simp only [shB]
@@ -235,6 +308,7 @@ theorem openBlocks_sim {src al} (ps : PS src al) (fr : Frames al) (ns : NS src) 
     show S2 _ ((source >>= fun y => openBlocksLoop bA _ (retryFuel y) q .noBlocksOpened (some x)) sA)
       ((source >>= fun y => openBlocksLoop bB _ (retryFuel y) (q + 1) .noBlocksOpened (some (shB x))) sB)
     rw [bind_run esA, bind_run esB]
-    exact S2.mono (openBlocksLoop_sim ps fr ns tr bA bB _ _ _ fuel q _ _ _ _ h (.inr hl) (.inl rfl)) (fun _ _ _ _ hh => ⟨hh.2.1 rfl, hh.2.2⟩)
+    exact S2.mono (openBlocksLoop_sim ps fr ot ns tr bA bB _ _ _ fuel q _ _ _ _ h (.inr hl) (.inl rfl))
+      (fun _ _ _ _ hh => ⟨hh.2.1 rfl, hh.2.2.1, fun ho _ => by rw [ho] at ea; cases ea⟩)
 
 end GM.Blocks
